@@ -491,7 +491,7 @@ Theorem cv_closed_form (k nmodels n w t : nat) (rb : list A) (tb : list B) :
         | inr fes => inr (mdiv o (fold_left (madd o) fes (zeros o nmodels t)) (of_N o (N.of_nat k)))
         end, (rb, tb)).
 Proof.
-  intros Hk Hr Ht. unfold cross_validate_model.
+  intros Hk Hr Ht. unfold cross_validate_model, cv_finish.
   rewrite (iter_fold_model_spec _ k n w t rb tb Hk Hr Ht). rewrite map_map. reflexivity.
 Qed.
 
